@@ -5,6 +5,7 @@ CONSTANTS
   CTypes = {"default", "application/json; charset=utf-8", "image/png"}
   AEs = {"absent", "gzip", "deflate, gzip", "identity"}
   Pres = {"none"}
+  Resps = {"200"}
   Lens = {0, 1, 1024}
   Fill = 97
   MaxOps = 3
